@@ -95,14 +95,26 @@ def pick {α} (flag env cfg : Option α) (dflt : α) : α :=
     | none => dflt
 
 /-- `GetTimeFromString(now, format, s)`: keywords, else a date in the layout (else naturaldate: outside the model) -/
+def kwToday : Bytes := [116, 111, 100, 97, 121]
+def kwYesterday : Bytes := [121, 101, 115, 116, 101, 114, 100, 97, 121]
+def kwLast7 : Bytes := [108, 97, 115, 116, 55]
+def kwLast30 : Bytes := [108, 97, 115, 116, 51, 48]
+
 def timeFromString (now : Int) (l : Layout) (s : Bytes) : Except LoadErr Int :=
-  if s == ofString "today" then .ok now
-  else if s == ofString "yesterday" then .ok (now - Date.nsPerDay)
-  else if s == ofString "last7" then .ok (now - 7 * Date.nsPerDay)
-  else if s == ofString "last30" then .ok (now - 30 * Date.nsPerDay)
+  if s == kwToday then .ok now
+  else if s == kwYesterday then .ok (now - Date.nsPerDay)
+  else if s == kwLast7 then .ok (now - 7 * Date.nsPerDay)
+  else if s == kwLast30 then .ok (now - 30 * Date.nsPerDay)
   else match Date.parse l s with
     | some c => .ok (Date.instant c)
     | none => .error (.badDate s)
+
+/-- populateFilter walks the context lineage from the root to the sub-command, each context that sets the
+    bound overwriting the previous one: the innermost setting wins -/
+def innermost {α} (global sub : Option α) : Option α :=
+  match sub with
+  | some v => some v
+  | none => global
 
 structure Loaded where
   opts : Opts
@@ -113,7 +125,7 @@ def optBind {α} (o : Option Bytes) (f : Bytes → Except LoadErr α) : Except L
   | none => .ok none
   | some s => (f s).map some
 
-def floorDiv (a b : Int) : Int := Int.fdiv a b
+def floorDiv (a b : Int) : Int := a / b        -- floor for a positive divisor
 
 /-- the window `summary` installs, given the zone offset used to read the civil day of `t` -/
 def summaryWindow (civil : Civil) (offNs : Int) : Int × Int :=
@@ -147,8 +159,8 @@ def load (s : Settings) : Except LoadErr Loaded := do
   let sb ← optBind s.sBegin (timeFromString now layout)
   let ge ← optBind s.gEnd (timeFromString now layout)
   let se ← optBind s.sEnd (timeFromString now layout)
-  let begin_ := match sb with | some v => some v | none => gb
-  let end_ := match se with | some v => some v | none => ge
+  let begin_ := innermost gb sb
+  let end_ := innermost ge se
   -- validateOptions
   if maxDepth > maxAllowedDepth then throw .badDepth
   -- `reg -f PATTERN` is a regular expression; only patterns without metacharacters are modelled
@@ -182,7 +194,7 @@ def load (s : Settings) : Except LoadErr Loaded := do
       if c == str "summary" then do
         let t ← timeFromString now layout a
         -- Year/Month/Day are read in the location of `t`: the process zone for `today`, UTC otherwise
-        let viaLocal := a == str "today"
+        let viaLocal := a == kwToday
         let off : Int := if viaLocal then s.tzOffset * 1000000000 else 0
         let civil := Date.ofDays (floorDiv (t + off) Date.nsPerDay)
         let w := summaryWindow civil off
